@@ -659,6 +659,13 @@ func termKey1(v ssa.Value, depth int) string {
 			}
 		}
 	case *ssa.Call:
+		if f := x.Call.StaticCallee(); f != nil && !x.Call.IsInvoke() && pureArithmeticFn(f) {
+			k := "(call " + f.String()
+			for _, a := range x.Call.Args {
+				k += " " + termKey(a, depth+1)
+			}
+			return k + ")"
+		}
 		if bi, ok := x.Call.Value.(*ssa.Builtin); ok && (bi.Name() == "len") && len(x.Call.Args) == 1 {
 			switch x.Call.Args[0].Type().Underlying().(type) {
 			case *types.Basic, *types.Slice:
@@ -1631,4 +1638,35 @@ func settledLoad(al *ssa.Alloc, ld *ssa.UnOp) bool {
 		}
 	}
 	return true
+}
+
+var pureFnMemo = map[*ssa.Function]bool{}
+
+// pureArithmeticFn: a function whose whole body is one block of arithmetic on its scalar parameters and constants
+// (`func lower(ch rune) rune { return ('a' - 'A') | ch }`): two calls with equal arguments are the same value.
+func pureArithmeticFn(f *ssa.Function) bool {
+	if v, ok := pureFnMemo[f]; ok {
+		return v
+	}
+	ok := len(f.Blocks) == 1 && len(f.FreeVars) == 0 && f.Signature.Results().Len() == 1
+	if ok {
+		for _, q := range f.Params {
+			if _, isB := q.Type().Underlying().(*types.Basic); !isB {
+				ok = false
+			}
+		}
+		for _, in := range f.Blocks[0].Instrs {
+			switch x := in.(type) {
+			case *ssa.BinOp, *ssa.Convert, *ssa.ChangeType, *ssa.Return, *ssa.DebugRef:
+			case *ssa.UnOp:
+				if x.Op == token.MUL || x.Op == token.ARROW {
+					ok = false
+				}
+			default:
+				ok = false
+			}
+		}
+	}
+	pureFnMemo[f] = ok
+	return ok
 }
